@@ -87,7 +87,125 @@ class Oracle:
       self.hits.append((sig, '%s: after %s, %s' % (clause, D.OP_NAMES[op[0]], detail), n))
 
 def run(ctx):
-  D.run_property(ctx, 'C01', Oracle)
+  D.run_property(ctx, 'C01', Oracle, extra=slice_sweep)
+
+# ----------------------------------------------------------------------------------------------------
+# Oracle-driven sweep over the part of the list surface that the SymCore model does not contain: slice get / set / del
+# with every start / stop / step, on lists whose elements are symbolic containers with sub-trees, followed by further
+# operations (append, re-insertion of an existing child `l[i] = l[j]`); the integrity walk runs after every step.
+# (No model correspondence for these operations here -- slices are modelled by C02's extension of SymCore.)
+def _run_oracle_only(ctx, case, kind):
+  from harness.lib import tr as trlib
+  orc = Oracle()
+  try:
+    D.run_case(case, after_step=orc)
+  except Exception as e:       # pylint: disable=broad-except
+    ctx.broken.append(dict(kind='driver-crash', name=type(e).__name__, detail=repr(e)[:300] + ' on ' + trlib.to_line(case)[:600]))
+    return
+  ctx.evaluations += 1
+  ctx.hist('slice_sweep', kind)
+  for sig, what, step in orc.hits:
+    ctx.hit(sig, what, dict(case=trlib.to_line(case), step=step, snippet=D.py_snippet(case), oracle_only=True))
+
+def slice_cases(ns, steps, full=True):
+  """(kind, case): every slice shape on a list of n symbolic children (each with a sub-tree), as root and nested."""
+  P, V, R, NS, sc = D.P, D.V, D.R, D.NS, D.sc
+  child = lambda i: {'i': i, 's': [{'j': i}]}
+  for n in ns:
+    items = [child(i) for i in range(n)]
+    for nested in (False, True):
+      init = [{'a': {'items': items}}] if nested else [items]
+      pos = P(0, 'a', 'items') if nested else P(0)
+      bounds = [[]] + [[b] for b in (range(-n - 1, n + 2) if full else (-n - 1, -2, 0, 1, n - 1, n + 1))]
+      for st in steps:
+        for a in bounds:
+          for b in bounds:
+            sl = [a, b, [] if st is None else [st]]
+            follow = [(NS, [D.LAPPEND, pos, V({'z': 1})]),
+                      (NS, [D.LSET, pos, -1, [1, pos[0], pos[1] + [[1, 0]]]]),      # l[-1] = l[0]
+                      (NS, [D.LSET, pos, 0, [1, pos[0], pos[1] + [[1, 1]]]]),       # l[0] = l[1]
+                      (NS, [D.LINSERT, pos, 1, [1, pos[0], pos[1] + [[1, 0]]]])]
+            yield 'del', D.case(init, (NS, [D.LDELSLICE, pos, sl]), *follow)
+            yield 'del-notify-off', D.case(init, (sc(notify=[False]), [D.LDELSLICE, pos, sl]), *follow)
+            for k in (0, 1, n):
+              vals = [V(child(100 + j)) for j in range(k)]
+              yield 'set', D.case(init, (NS, [D.LSETSLICE, pos, sl, vals]), *follow)
+            yield 'set-existing', D.case(init, (NS, [D.LSETSLICE, pos, sl, [[1, pos[0], pos[1] + [[1, 0]]], V(child(7))]]), *follow)
+            yield 'get', D.case(init, (NS, [D.LGETSLICE, pos, sl]), follow[0])
+
+def construction_sweep(ctx):
+  """Construction (oracle only): the same symbolic node handed twice to one constructor / one batch must not be stored twice."""
+  P = D.pg()
+  A, B, C = D.classes()
+  def node(parented):
+    d = P.Dict(a=1, s=[P.Dict(b=2)])
+    if parented:
+      P.Dict(holder=d)
+    return d
+  makers = {
+      'Object(x=d, y=d)': lambda d: A(x=d, y=d), 'Object.partial(x=d, y=d)': lambda d: A.partial(x=d, y=d),
+      'Object(x=d, y=d, z=d)': lambda d: B(x=d, y=d, z=d), 'Object(x=[d, d])': lambda d: A(x=[d, d]), 'Object(x={p: d, q: d})': lambda d: A(x={'p': d, 'q': d}),
+      'Object(x=d, y=[d])': lambda d: A(x=d, y=[d]),
+      'Dict(x=d, y=d)': lambda d: P.Dict(x=d, y=d), 'Dict({x: d, y: [d, d]})': lambda d: P.Dict({'x': d, 'y': [d, d]}),
+      'List([d, d])': lambda d: P.List([d, d]), 'List([d, [d], {k: d}])': lambda d: P.List([d, [d], {'k': d}]),
+      'Dict().rebind(x=d, y=d)': lambda d: P.Dict().rebind({'x': d, 'y': d}), 'Object().rebind(x=d, y=d)': lambda d: A().rebind(x=d, y=d),
+      'List().extend([d, d])': lambda d: (lambda l: (l.extend([d, d]), l)[1])(P.List()),
+      'Dict().update(x=d, y=d)': lambda d: (lambda x: (x.update({'x': d, 'y': d}), x)[1])(P.Dict()),
+  }
+  n = 0
+  for name, make in makers.items():
+    for parented in (False, True):
+      d = node(parented)
+      try:
+        v = make(d)
+      except Exception as e:       # pylint: disable=broad-except
+        ctx.hit('C01/construction-raises/%s/-' % name, '%s raises %s' % (name, type(e).__name__), dict(kind='construction', name=name, parented=parented))
+        continue
+      n += 1
+      ctx.evaluations += 1
+      impl = D.Impl(); impl.roots.append(v)
+      if not parented:
+        pass        # d itself is in the tree (or a copy of it); nothing else is held
+      for clause, what in check_forest(impl):
+        ctx.hit('C01/%s/%s/%s' % (clause, name.split('(')[0] + '-construction', 'same-node-twice'),
+                '%s with the same %s node for several places: %s' % (name, 'parented' if parented else 'parentless', what),
+                dict(kind='construction', name=name, parented=parented))
+        break
+  ctx.extra['construction_sweep'] = dict(oracle_only=True, cases=n, what='the same node handed twice to one constructor / rebind / extend / update, parentless and parented')
+
+def replay_construction(c):
+  class Ctx:
+    hits = []
+    extra = {}
+    evaluations = 0
+    def hit(self, sig, what, case):
+      if case.get('name') == c.get('name') and case.get('parented') == c.get('parented'): self.hits.append(sig)
+  x = Ctx(); construction_sweep(x)
+  return not x.hits
+
+def slice_sweep(ctx):
+  construction_sweep(ctx)
+  import time
+  from harness.props import symcore_gen as G
+  t0 = time.time()
+  ns = ctx.scale([5], [3, 4, 5, 6])
+  steps = ctx.scale([None, 2, -2, 3], [None, 1, 2, 3, -1, -2, -3])
+  n = 0
+  for kind, case in slice_cases(ns, steps, full=ctx.thorough):
+    _run_oracle_only(ctx, [case[0], case[1], case[2]], kind)
+    n += 1
+  # random histories that mix slice operations with everything else
+  g = G.Gen(ctx.rng, cycles=True, slices=True)
+  m = ctx.scale(300, 6000)
+  for _ in range(m):
+    _run_oracle_only(ctx, g.case(10), 'random-history')
+  ctx.extra['slice_sweep'] = dict(oracle_only=True, systematic_cases=n, random_histories=m,
+                                  what='del / set / get of every slice (start, stop in -n-1..n+1 or absent; steps %s) on lists of %s symbolic children with sub-trees, '
+                                       'as root and nested, with and without change notification, followed by append / l[-1] = l[0] / l[0] = l[1] / insert(1, l[0]); '
+                                       'plus random histories mixing slice operations with the whole catalogue; integrity walk after every step' % (steps, ns))
+  ctx.log('slice sweep (oracle only): %d systematic cases + %d random histories in %.1fs' % (n, m, time.time() - t0))
 
 def replay(ctx, rp):
+  if isinstance(rp.get('case'), dict) and rp['case'].get('kind') == 'construction':
+    return replay_construction(rp['case'])
   return D.replay_property(ctx, rp, Oracle)
